@@ -21,6 +21,7 @@ import (
 	"path"
 	"path/filepath"
 	"sort"
+	"strconv"
 	"strings"
 	"testing"
 	"testing/synctest"
@@ -220,30 +221,57 @@ func startSkylight(tmp, yaml string) (*server, error) {
 				continue
 			default:
 			}
-			c, err := net.DialTimeout("tcp", addr, time.Second)
-			if err == nil {
-				c.Close()
+			// up means: the listening socket on addr belongs to OUR child (another
+			// worker's server may have taken the port meanwhile and would answer a
+			// plain connection attempt just as well)
+			if ownsListener(s.cmd.Process.Pid, addr) {
 				up = true
 				break
 			}
 			time.Sleep(50 * time.Millisecond)
 		}
 		if up {
-			// make sure it is our child that listens there
-			select {
-			case <-s.exited:
-			case <-time.After(300 * time.Millisecond):
-				select {
-				case <-s.exited:
-				default:
-					return s, nil
-				}
-			}
+			return s, nil
 		}
 		s.stop()
 		last = clipS(s.out.String())
 	}
 	return nil, fmt.Errorf("skylight did not come up: %s", last)
+}
+
+// ownsListener reports whether process pid holds the socket listening on addr
+// (/proc/net/tcp gives the socket inode, /proc/<pid>/fd the process's sockets).
+func ownsListener(pid int, addr string) bool {
+	_, portS, err := net.SplitHostPort(addr)
+	if err != nil {
+		return false
+	}
+	port, _ := strconv.Atoi(portS)
+	b, err := os.ReadFile("/proc/net/tcp")
+	if err != nil {
+		return false
+	}
+	want := fmt.Sprintf("0100007F:%04X", port)
+	inode := ""
+	for _, line := range strings.Split(string(b), "\n")[1:] {
+		f := strings.Fields(line)
+		if len(f) > 9 && f[1] == want && f[3] == "0A" {
+			inode = f[9]
+		}
+	}
+	if inode == "" {
+		return false
+	}
+	fds, err := os.ReadDir(fmt.Sprintf("/proc/%d/fd", pid))
+	if err != nil {
+		return false
+	}
+	for _, fd := range fds {
+		if l, err := os.Readlink(fmt.Sprintf("/proc/%d/fd/%s", pid, fd.Name())); err == nil && l == "socket:["+inode+"]" {
+			return true
+		}
+	}
+	return false
 }
 
 func (s *server) stop() {
